@@ -254,36 +254,49 @@ func runC08(p *Program, r *Result) {
 			r.Check(fs.Fn == se, fs.Fn.String(), "store:err", r.pos(fs.Store), "r.err is written by setErr only", "r.err is written outside setErr: an untyped error could be remembered")
 		}
 		// setErr: value stored/returned is err under err == io.EOF, else &Error{err}
-		ok := false
+		// every value setErr can return, with the facts under which it does: a merge is taken
+		// apart into its incoming edges
+		type retCase struct {
+			val   ssa.Value
+			facts []Atom
+		}
+		var cases []retCase
 		for _, ret := range returnsOf(se) {
 			v := ret.Results[0]
 			if ph, isPhi := v.(*ssa.Phi); isPhi {
-				good := len(ph.Edges) == 2
 				for k, e := range ph.Edges {
 					pred := ph.Block().Preds[k]
-					var facts []Atom
+					facts := stb.FactsAt(pred)
 					for j, sb := range pred.Succs {
 						if sb == ph.Block() {
 							if _, isIf := pred.Instrs[len(pred.Instrs)-1].(*ssa.If); isIf {
 								facts = stb.FactsOnEdge(pred, j)
-							} else {
-								facts = stb.FactsAt(pred)
 							}
 						}
 					}
-					_, isEOF := hasFactShort(facts, "P1 == io.EOF")
-					_, notEOF := hasFactShort(facts, "P1 != io.EOF")
-					et := short(stb.Term(e).String())
-					switch {
-					case et == "P1" && isEOF:
-					case et == "armor.Error{err: P1}" && notEOF:
-					default:
-						good = false
-					}
+					cases = append(cases, retCase{e, facts})
 				}
-				ok = good
+			} else {
+				cases = append(cases, retCase{v, stb.FactsAt(ret.Block())})
 			}
 		}
+		nEOF, nWrap := 0, 0
+		ok := len(cases) > 0
+		for _, c := range cases {
+			_, isEOF := hasFactShort(c.facts, "P1 == io.EOF")
+			_, notEOF := hasFactShort(c.facts, "P1 != io.EOF")
+			et := short(stb.Term(c.val).String())
+			switch {
+			case et == "P1" && isEOF:
+				nEOF++
+			case et == "armor.Error{err: P1}" && notEOF:
+				nWrap++
+			default:
+				ok = false
+			}
+		}
+		ok = ok && nWrap > 0
+		_ = nEOF
 		r.Check(ok, se.String(), "wrap", "", "everything but io.EOF becomes &Error{err}", "setErr does not wrap every non-EOF error in *armor.Error")
 	}
 
